@@ -817,7 +817,10 @@ class MyPyAstVisitor:
                 and not node.is_inferred
             ):
                 if unanalyzed_type is not None and hasattr(unanalyzed_type, "args"):
-                    attribute_type.args = unanalyzed_type.args
+                    # Only lists with multiple type arguments are not handled by mypy, for all other lists the
+                    # analyzed arguments have the complete type information
+                    if len(unanalyzed_type.args) >= 2:
+                        attribute_type.args = unanalyzed_type.args
                 else:  # pragma: no cover
                     raise AttributeError("Could not get argument information for attribute.")
 
